@@ -2,8 +2,8 @@
 import sys, warnings, copy, logging
 def setup(path):
     warnings.filterwarnings('ignore'); logging.disable(logging.CRITICAL)
-    sys.path.insert(0, path + '/src'); sys.path.insert(0, '/verif/harness')
-    import stub_modules as stubmods; stubmods.install()
+    sys.path.insert(0, path + '/src'); sys.path.insert(0, '/root/scratch/probe')
+    import stubmods; stubmods.install()
     import numpy as np, pydicom, highdicom as hd
     from pydicom.sr.codedict import codes
     base = pydicom.dcmread(path + '/data/test_files/ct_image.dcm')
